@@ -179,10 +179,7 @@ func H_c17_mut_t() { c17Mutators(4, 3) }
 
 func c17Complement(N, L int) {
 	n := rt.Concrete(rt.IntIn("n", 0, N))
-	a := c17Set("a", L, 0)
-	for _, e := range a {
-		rt.Assume(e >= 0 && e < n) // documented domain: a ⊆ {0..n-1}
-	}
+	a := c17Set("a", L, 0) // any ints, including negative ones and elements >= n
 	a0 := c17Copy(a)
 	r := Complement(n, a)
 	c17Sorted(r, "Complement")
